@@ -28,6 +28,10 @@ pub struct Params {
     /// C12: names of the fault kinds applied, for the evidence counters.
     #[serde(default)]
     pub faults: Vec<String>,
+    /// Rebuild histories: `(build, earlier build)` — `build` starts with the output directory
+    /// exactly as `earlier build` left it (instead of its world's pre-existing output state).
+    #[serde(default)]
+    pub chain: Vec<(usize, usize)>,
 }
 
 #[derive(Clone, Debug, PartialEq, Eq, Serialize, Deserialize)]
@@ -89,10 +93,38 @@ impl CaseReport {
 
 /// Runs every build of the case, in order, on the calling thread.
 pub fn execute(scratch: &mut Scratch, case: &Case) -> Vec<Vec<RunResult>> {
-    case.builds
-        .iter()
-        .map(|b| crate::run::run_build(scratch, &case.worlds[b.world], b))
-        .collect()
+    let mut results: Vec<Vec<RunResult>> = vec![];
+    for (bi, b) in case.builds.iter().enumerate() {
+        let from = case
+            .params
+            .chain
+            .iter()
+            .find(|(this, earlier)| *this == bi && *earlier < bi)
+            .map(|(_, earlier)| *earlier);
+        let r = match from.and_then(|j| results[j].last()) {
+            Some(prev) => {
+                let mut world = case.worlds[b.world].clone();
+                world.out_exists = true;
+                world.out_is_file = false;
+                world.pre_out = prev
+                    .after
+                    .iter()
+                    .filter_map(|(path, snap)| match snap {
+                        crate::run::Snap::File(bytes) => Some(crate::run::Node::File {
+                            path: path.clone(),
+                            content: crate::run::Blob(bytes.clone()),
+                        }),
+                        crate::run::Snap::Dir => Some(crate::run::Node::Dir { path: path.clone() }),
+                        crate::run::Snap::Other => None,
+                    })
+                    .collect();
+                crate::run::run_build(scratch, &world, b)
+            }
+            None => crate::run::run_build(scratch, &case.worlds[b.world], b),
+        };
+        results.push(r);
+    }
+    results
 }
 
 /// Fills the generic part of a report from the results.
